@@ -367,7 +367,7 @@ func extOK(e taintEvent) bool {
 	if cal == nil {
 		return false
 	}
-	for _, ro := range [][2]string{{"slices", "Contains"}, {"slices", "Index"}, {"slices", "Clone"}, {"maps", "Clone"}, {"fmt", "Sprintf"}, {"fmt", "Sprint"}, {"fmt", "Errorf"}, {"strings", "Join"}} {
+	for _, ro := range [][2]string{{"slices", "Contains"}, {"slices", "Index"}, {"slices", "Clone"}, {"maps", "Clone"}, {"slices", "Backward"}, {"slices", "All"}, {"slices", "Values"}, {"maps", "Keys"}, {"maps", "Values"}, {"maps", "All"}, {"fmt", "Sprintf"}, {"fmt", "Sprint"}, {"fmt", "Errorf"}, {"strings", "Join"}} {
 		if extFuncIs(cal, ro[0], ro[1]) {
 			return true
 		}
